@@ -406,7 +406,7 @@ func (ex *Exec) loadNum(b *Buf, off *Term, s Sort, w int) *Term {
 	if b.cellW < w {
 		ex.recell(b, w)
 	}
-	if o, ok := termConstInt(off); ok {
+	if o, ok := ex.constInt(off); ok {
 		if o < 0 || int(o)+w > b.Size() {
 			panic(abortPath{fmt.Sprintf("raw load out of buffer (%s off %d w %d size %d)", b.what, o, w, b.Size())})
 		}
@@ -488,7 +488,7 @@ func (ex *Exec) storeNum(b *Buf, off *Term, val *Term, w int, guard *Term) {
 		}
 		b.cells[ci] = nv
 	}
-	if o, ok := termConstInt(off); ok {
+	if o, ok := ex.constInt(off); ok {
 		if o < 0 || int(o)+w > b.Size() {
 			panic(abortPath{fmt.Sprintf("raw store out of buffer (%s off %d w %d size %d)", b.what, o, w, b.Size())})
 		}
@@ -533,7 +533,7 @@ func (ex *Exec) bufLoad(b *Buf, off *Term, t types.Type) V {
 
 // genCell resolves a non-numeric cell index.
 func (ex *Exec) genCell(b *Buf, off *Term, t types.Type) int {
-	o, ok := termConstInt(off)
+	o, ok := ex.constInt(off)
 	if !ok {
 		// one path per feasible position (objects cannot be merged with ite)
 		o = ex.concretize(off, 0, int64(b.Size()), "index into "+b.what, token.NoPos, nil)
